@@ -5,13 +5,15 @@
    statement for expressions without '=': value returned = ordinary (kind-aware) denotation, track exactly as before.
    C02_assign_new / C02_assign_over / C02_assign_coord are the end-to-end statements for "name=expr": name new, name an
    existing feature, name one of x y z.
-   Named _partial where the property text asks for more than is proved here: unary minus and the surface rewriting
-   F( -> F@( (and "t=expr", which stores raw values as timestamps) are tied to the code by the correspondence streams and the
-   tree-evaluator oracle only. *)
+   C02_surface / C02_surface_operate: the surface spellings - unary minus "(-e)" and the function calls F(e), F{e} - are rewritten
+   by the string passes of __evaluate into (0-e) and F@(e); a surface expression evaluates as its lowered tree.
+   Named _partial where the property text asks for more than is proved here: a surface spelling on the right of '=' (the '='
+   theorems take the internal spelling), a leading unary minus without parentheses, the operator spellings ** .* >> <<, and
+   "t=expr" (raw values stored as timestamps) are tied to the code by the correspondence streams and the tree-evaluator oracle only. *)
 From Coq Require Import List Ascii String Bool Arith ZArith QArith Lia.
 Import ListNotations.
 From TL Require Import Model.Str Model.Rpn Model.Table Model.Eval Model.Pipeline
-  Proofs.Table_inv Proofs.Table_remove Proofs.Rpn_parse Proofs.Rpn_output Proofs.Eval_sem Proofs.Eval_machine Proofs.Eval_run Proofs.Eval_top Proofs.Eval_operate Proofs.Eval_assign.
+  Proofs.Table_inv Proofs.Table_remove Proofs.Rpn_parse Proofs.Rpn_output Proofs.Eval_sem Proofs.Eval_machine Proofs.Eval_run Proofs.Eval_top Proofs.Eval_operate Proofs.Eval_assign Proofs.Replace Proofs.Surface Proofs.Surface_eval.
 
 (* the parser: precedence classes, left associativity, parentheses - for every expression tree *)
 Theorem C02_parse : forall fuel e, wf e -> (size e < fuel)%nat -> makeRPN fuel (print e) = Rpn.Ok (postfix e).
@@ -85,6 +87,24 @@ Theorem C02_assign_coord c e t d :
     /\ (forall m, m <> c -> has_af t m = true -> get_af t3 m = get_af t m).
 Proof. exact (operate_assign_coord c e t d). Qed.
 
+(* surface syntax: all the string passes of __evaluate (special operators, reflexive operators, unary operators, function marking)
+   turn the printed surface tree into the printed lowered tree, for every tree *)
+Theorem C02_surface x : swf x -> preprocess (sprint x) = Ok (print (lower x)).
+Proof. exact (preprocess_sprint x). Qed.
+
+(* hence Track.operate on the surface spelling returns the denotation of the lowered tree (unary minus = 0 - e, F(e) = F{e} = the
+   function applied to e) and leaves the track exactly as it was *)
+Theorem C02_surface_operate x t d :
+  swf x ->
+  Inv t -> coords_ok t -> Table.size t <> 0%nat -> fresh_from t 0 -> has_af t out_name = false ->
+  (forall m, In m (names t) -> is_temp m = false) ->
+  wf (lower x) -> wfe t (lower x) -> (0 < minclass (lower x))%nat -> clean (print (lower x)) = true -> sem t (lower x) = Ok d ->
+  exists t3, operate_str t (sprint x) = Ok (t3, Some (dcol (Table.size t) d))
+    /\ Inv t3 /\ names t3 = names t
+    /\ (forall m, has_af t m = true -> get_af t3 m = get_af t m)
+    /\ xs t3 = xs t /\ ys t3 = ys t /\ zs t3 = zs t /\ ts t3 = ts t.
+Proof. exact (surface_operate_correct x t d). Qed.
+
 (* spaces anywhere in the input are irrelevant *)
 Theorem C02_spaces e t d s :
   filter (fun c => negb (Ascii.eqb c " ")) s = print e ->
@@ -104,6 +124,8 @@ Print Assumptions C02_spaces.
 Print Assumptions C02_assign_new.
 Print Assumptions C02_assign_over.
 Print Assumptions C02_assign_coord.
+Print Assumptions C02_surface.
+Print Assumptions C02_surface_operate.
 
 (* non-vacuity: every hypothesis of C02_operate_partial holds for a + 2 * (x - a) on a two-fix track, and for a+D@(x)+SUM@(a) *)
 Example C02_nonvacuous :
@@ -126,3 +148,5 @@ Example C02_assign_coord_run : match operate_str t_ex (assign_str (s_ "y") e_ex)
   | Ok (t3, None) => (List.length (names t3) =? 1)%nat && match ys t3 with [Some a; Some b] => Qeq_bool a (-1) && Qeq_bool b 6 | _ => false end
   | _ => false end = true.
 Proof. vm_compute. reflexivity. Qed.
+Example C02_surface_example : swf x_ex /\ sprint x_ex = s_ "(-a)+ABS{b}*SUM(a)" /\ print (lower x_ex) = s_ "(0-a)+ABS@(b)*SUM@(a)" /\ clean (print (lower x_ex)) = true.
+Proof. split; [|exact x_ex_ok]. cbn. repeat split; try discriminate; try reflexivity; auto 30. Qed.
